@@ -1795,11 +1795,17 @@ class Interp:
         if not isinstance(a, Poly) or not isinstance(b, Poly):
             raise self.unsupported("arithmetic on %r and %r" % (a, b), node)
         if op is ast.Add:
-            return a + b
+            r = a + b
+            if self.is_nonneg_by_construction(a) and self.is_nonneg_by_construction(b):
+                self.nonneg_keys.add(r.key())
+            return r
         if op is ast.Sub:
             return a - b
         if op is ast.Mult:
-            return a * b
+            r = a * b
+            if a == b or (self.is_nonneg_by_construction(a) and self.is_nonneg_by_construction(b)):
+                self.nonneg_keys.add(r.key())      # a square, or a product of two non-negative quantities
+            return r
         if op is ast.Pow:
             e = b.const_value()
             if e is None:
@@ -1808,7 +1814,10 @@ class Interp:
                 return self.np_sqrt(a, node)
             if int(e) != e or e < 0:
                 raise self.unsupported("exponent %s" % e, node)
-            return a ** int(e)
+            r = a ** int(e)
+            if int(e) % 2 == 0:
+                self.nonneg_keys.add(r.key())
+            return r
         if op is ast.Div:
             d = b.const_value()
             if d is None:
@@ -2471,7 +2480,10 @@ class Interp:
                     return Arr([flat[i * c:(i + 1) * c] for i in range(r)], 2)
             raise self.unsupported("reshape", n)
         if name == "sum":
-            return sum(v.flat(), Poly())
+            r_ = sum(v.flat(), Poly())
+            if all(self.is_nonneg_by_construction(x) for x in v.flat()):
+                self.nonneg_keys.add(r_.key())
+            return r_
         if name == "round":
             raise LossyOperation("ndarray.round", self.where(n))
         if name in ("tocsr", "tocsc", "tolil", "todense", "toarray", "tocoo", "squeeze", "conj", "conjugate", "__array__"):
@@ -3194,6 +3206,20 @@ class Interp:
                 raise PathRaise("FloatingPointError(sqrt of a negative number: nan)", self.where(node))
         return poly.atom("sqrt", p)
 
+    def is_nonneg_by_construction(self, p):
+        if not isinstance(p, Poly):
+            return False
+        c = p.const_value()
+        if c is not None:
+            return c >= 0
+        if p.key() in self.nonneg_keys:
+            return True
+        if len(p.t) == 1:
+            (m, c_), = p.t.items()
+            if c_ > 0 and len(m) == 1 and m[0][1] == 1 and poly.R.vars[m[0][0]].startswith(("norm#", "sqrt#")):
+                return True          # a norm / square-root atom
+        return all(c_ > 0 and all(e % 2 == 0 for _v, e in m) for m, c_ in p.t.items())
+
     def sqrt_arg_nonnegative(self, p):
         """Is p >= 0 on this path for a reason that needs no decision?  (sum of squares; c - n^2 with 0 <= n <= sqrt(c) known)"""
         if all(c_ > 0 and all(e % 2 == 0 for _v, e in m) for m, c_ in p.t.items()):
@@ -3439,7 +3465,11 @@ class Interp:
         if name == "finfo":
             return Opaque("finfo")
         if name == "sum":
-            return sum(self.to_arr(args[0], n).flat(), Poly())
+            fl_ = self.to_arr(args[0], n).flat()
+            r_ = sum(fl_, Poly())
+            if all(self.is_nonneg_by_construction(x) for x in fl_):
+                self.nonneg_keys.add(r_.key())
+            return r_
         if name == "trace":
             a = self.to_arr(args[0], n)
             return sum((a.data[i][i] for i in range(min(a.shape))), Poly())
